@@ -110,9 +110,25 @@ def record_prioritisation(full):
     try:
         # the complete step (virtual worlds, delegation, battery support, surplus pass) is tied to its model as well
         import steptie
-        r, tl, ti = steptie.run_with_tie(full, lambda: scen.run_real(full, timeout_s=90))
+        # the delegated sub-strategy steps (real Greedy.step / Balanced.step called by Distributed.step on the virtual
+        # world of one connector) against the Lean SPECIFICATION of the documented rule (`specstep`,
+        # Model/RuleSpec.lean; C14_distributed_deps_is_spec / _opps_is_spec): world before and result after every
+        # delegated step, compared by value like the C10 stream
+        import contextlib
+        import c10
+        import tie_rule
+        steptie._guard(c10)
+        spec_ties = [tie_rule.tie({"strategy": s}) for s in ("greedy", "balanced")]
+        with contextlib.ExitStack() as es:
+            for t in spec_ties:
+                es.enter_context(t)
+            r, tl, ti = steptie.run_with_tie(full, lambda: scen.run_real(full, timeout_s=90))
         lines += tl
         impl += ti
+        if not (isinstance(r, dict) and r.get("timeout")):
+            for t in spec_ties:
+                lines += [c10.spec_line(x) for x in t.lines]
+                impl += ["@tie_rule " + x for x in t.impl]
     finally:
         dmod.Distributed.step = orig_step
         del dmod.sorted
